@@ -473,23 +473,31 @@ func (a *Analyzer) finishClients() {
 			}
 		}
 	}
-	// real-time order of successful updates: returned before the other was called => earlier position
-	sort.Slice(okUpdates, func(i, j int) bool { return okUpdates[i].ret < okUpdates[j].ret })
-	byCall := append([]done(nil), okUpdates...)
-	sort.Slice(byCall, func(i, j int) bool { return byCall[i].call < byCall[j].call })
-	var maxPos int64
-	var maxID string
-	i := 0
-	for _, u := range byCall {
-		for i < len(okUpdates) && okUpdates[i].ret < u.call {
-			if okUpdates[i].pos > maxPos {
-				maxPos, maxID = okUpdates[i].pos, okUpdates[i].id
+	// real-time order of successful updates (per cluster): returned before the
+	// other was called => earlier position
+	byCid := map[uint64][]done{}
+	for _, u := range okUpdates {
+		byCid[u.node.cid] = append(byCid[u.node.cid], u)
+	}
+	for _, ups := range byCid {
+		byRet := append([]done(nil), ups...)
+		sort.Slice(byRet, func(i, j int) bool { return byRet[i].ret < byRet[j].ret })
+		byCall := append([]done(nil), ups...)
+		sort.Slice(byCall, func(i, j int) bool { return byCall[i].call < byCall[j].call })
+		var maxPos int64
+		var maxID string
+		i := 0
+		for _, u := range byCall {
+			for i < len(byRet) && byRet[i].ret < u.call {
+				if byRet[i].pos > maxPos {
+					maxPos, maxID = byRet[i].pos, byRet[i].id
+				}
+				i++
 			}
-			i++
-		}
-		if maxPos > u.pos {
-			a.find("C07", "real-time-order-violated", "", u.call, "update %q (position %d) completed before %q was submitted, which took position %d", maxID, maxPos, u.id, u.pos)
-			break
+			if maxPos > u.pos {
+				a.find("C07", "real-time-order-violated", "", u.call, "update %q (position %d) completed before %q was submitted, which took position %d", maxID, maxPos, u.id, u.pos)
+				break
+			}
 		}
 	}
 	a.rep.Stats["real-time-pairs-covered"] = int64(len(okUpdates))
